@@ -272,9 +272,48 @@ fn replay_assert(c: &Value) -> Result<(), (String, String)> {
     Ok(())
 }
 
+/// The drop rule with long filter lists: hundreds of filters that do not match and one that does, at the front, in the middle, at
+/// the end - and none that does.  (Slurm.tla's law is about "some filter of its kind", however many there are.)
+fn long_filter_lists(s: &mut Summary) {
+    let origin = Payload::origin(MaxLenPrefix::new(Prefix::new("192.0.2.0".parse().unwrap(), 24).unwrap(), Some(26)).unwrap(), Asn::from_u32(64496));
+    let key = Payload::router_key(KeyIdentifier::from([7u8; 20]), Asn::from_u32(64496), RouterKeyInfo::try_from(vec![1u8, 2, 3]).unwrap());
+    let aspa = Payload::aspa(Asn::from_u32(64496), ProviderAsns::try_from_iter([Asn::from_u32(65000)]).unwrap());
+    for n in [1usize, 15, 16, 17, 63, 64, 65, 255, 256, 257, 600] {
+        for hit in [None, Some(0), Some(n / 2), Some(n - 1)] {
+            let r = guarded(|| -> Result<(), String> {
+                let miss_as = |i: usize| Asn::from_u32(70000 + i as u32);
+                let pf: Vec<PrefixFilter> = (0..n).map(|i| if hit == Some(i) { PrefixFilter::new(Some(Prefix::new("192.0.0.0".parse().unwrap(), 16).unwrap()), None, None) }
+                                                           else { PrefixFilter::new(Some(Prefix::new(std::net::IpAddr::V4(std::net::Ipv4Addr::from(0x0B00_0000u32 + ((i as u32) << 8))), 24).unwrap()), Some(miss_as(i)), None) }).collect();
+                let bf: Vec<BgpsecFilter> = (0..n).map(|i| if hit == Some(i) { BgpsecFilter::new(Some(KeyIdentifier::from([7u8; 20])), None, None) }
+                                                           else { BgpsecFilter::new(Some(KeyIdentifier::from([(i % 200) as u8 + 8; 20])), Some(miss_as(i)), None) }).collect();
+                let af: Vec<AspaFilter> = (0..n).map(|i| AspaFilter::new(Some(if hit == Some(i) { Asn::from_u32(64496) } else { miss_as(i) }), None)).collect();
+                let mut filters = ValidationOutputFilters::new(pf, bf);
+                filters.aspa = Some(af);
+                let file = SlurmFile::new(filters, LocallyAddedAssertions::new(Vec::new(), Vec::new()));
+                let back = parse_every_way(&file.to_string()).map_err(|(_, m)| m)?;
+                for f in [&file, &back] {
+                    for (what, item) in [("origin", &origin), ("router key", &key), ("aspa", &aspa)] {
+                        if f.drop_payload(item) != hit.is_some() {
+                            return Err(format!("{what}: drop_payload = {}, although {}", !hit.is_some(), match hit { Some(i) => format!("filter {i} of {n} matches"), None => format!("none of the {n} filters matches") }));
+                        }
+                    }
+                }
+                Ok(())
+            });
+            match r {
+                Ok(Ok(())) => {}
+                Ok(Err(m)) => s.violation(if hit.is_some() { "drop:long-list:missed" } else { "drop:long-list:spurious" }, m, json!({"filters": n, "hit": hit})),
+                Err(m) => s.violation("drop:panic", m, json!({"filters": n, "hit": hit})),
+            }
+            s.evals(1);
+        }
+    }
+}
+
 pub fn replay(args: &[String]) {
     let cases = read_cases(&args[0]);
     let mut s = Summary::new();
+    if cases.iter().any(|c| c["op"] == "drop") { long_filter_lists(&mut s); }
     for c in &cases {
         if c["op"] == "assert" {
             match guarded(|| replay_assert(c)) {
